@@ -224,7 +224,7 @@ def ensure_kind(desc, kind, rng):
             s['norm_y'] = 500.0
 
 
-def gen_problem(rng, want_kinds=None, all_bounded=None, nvars=None, paraxial_only=False):
+def gen_problem(rng, want_kinds=None, all_bounded=None, nvars=None, paraxial_only=False, one_sided=False):
     """JSON-able problem descriptor: lens, pickups, solves, variables, operands"""
     for _attempt in range(50):
         poly = rng.random() < 0.3
@@ -313,6 +313,13 @@ def gen_problem(rng, want_kinds=None, all_bounded=None, nvars=None, paraxial_onl
                     d[rng.choice(['min_val', 'max_val'])] = None
             else:
                 d['min_val'] = d['max_val'] = None
+            if one_sided:
+                # one limit only, close to the start: whichever way the optimiser wants to go, one of the two
+                # variants of the run meets its limit
+                w = hw * rng.choice([0.01, 0.05])
+                d['min_val'], d['max_val'] = (raw - w, None) if one_sided == 'min' else (None, raw + w)
+                if d['type'] == 'index' and d['min_val'] is not None:
+                    d['min_val'] = max(d['min_val'], 1.05)
             vs.append(d)
         if not vs:
             continue
@@ -1061,7 +1068,7 @@ SEQS = [['opt'], ['opt', 'undo'], ['opt', 'undo'], ['opt', 'undo', 'opt'], ['opt
         ['undo', 'opt', 'undo', 'opt', 'undo'], ['opt', 'opt', 'undo', 'opt', 'undo', 'undo']]
 
 
-def front_cases(rng, pd, pdb, pdc, thorough, i):
+def front_cases(rng, pd, pdb, pdc, thorough, i, pdo=()):
     """runs for one problem triple: pd (any bounds), pdb (all bounded), pdc (paraxial, one variable)"""
     out = []
 
@@ -1084,6 +1091,11 @@ def front_cases(rng, pd, pdb, pdc, thorough, i):
         mk(pdb, 'differential_evolution', {'maxiter': 1, 'disp': False, 'workers': 2}, ['opt', 'undo'])
     if i % 3 == 0 or (thorough and i % 2 == 0):
         mk(pdc, 'compensator:' + rng.choice(['generic', 'least_squares']), {'tol': rng.choice([1e-5, 1e-3])}, ['opt'])
+    for k, p in enumerate(pdo):
+        if (i + k) % 2 == 0:
+            mk(p, 'least_squares', {'maxiter': rng.choice([6, 10]), 'disp': False, 'tol': 1e-8}, ['opt'])
+        else:
+            mk(p, 'compensator:least_squares', {'tol': 1e-5}, ['opt'])
     return out
 
 
@@ -1120,11 +1132,18 @@ def run(tier, seed, replay=None):
             pd = gen_problem(rng, want_kinds=want)
             pdb = gen_problem(rng, want_kinds=[ALL_KINDS[(i + 3) % 9]], all_bounded=True, nvars=rng.choice([1, 2]))
             pdc = gen_problem(rng, want_kinds=[ALL_KINDS[(i + 5) % 9]], nvars=1, paraxial_only=True)
+            pdo = []
+            if i % 2 == 0 or thorough:
+                base_state = rng.getstate()
+                for side in ('min', 'max'):
+                    rng.setstate(base_state)      # the same lens and operands, the limit on either side
+                    pdo.append(gen_problem(rng, want_kinds=[ALL_KINDS[(i // 2) % 3]], nvars=1, paraxial_only=True,
+                                           one_sided=side))
             for p in (pd, pdb, pdc):
                 for vi in range(len(p['variables'])):
                     variable_case(ctx, lines, keep, p, vi, rng.choice([0.0, 0.03125, -0.0625, 0.25]))
                 merit_case(ctx, lines, keep, p)
-            for case in front_cases(rng, pd, pdb, pdc, thorough, i):
+            for case in front_cases(rng, pd, pdb, pdc, thorough, i, pdo):
                 run_case(ctx, lines, keep, case)
     outs = drv.batch(lines)
     pos = 0
